@@ -2,6 +2,9 @@ from core import Unit as U
 HASH = ["secp256k1_sha256_write", "secp256k1_sha256_finalize"]
 VORACLES = ["secp256k1_ge_set_xquad", "secp256k1_fe_impl_is_square_var", "secp256k1_gej_add_ge_var",
             "secp256k1_pedersen_ecmult_small", "secp256k1_borromean_verify"]   # call-site stubs (assumed_rangeproof.h part B)
+VFUNCS = ["secp256k1_rangeproof_verify_impl", "secp256k1_rangeproof_getheader_impl", "secp256k1_ge_neg", "secp256k1_gej_neg", "secp256k1_rangeproof_serialize_point"]
+VLOOPS_B = ["secp256k1_rangeproof_verify_impl.0:3", "secp256k1_rangeproof_verify_impl.1:3", "secp256k1_rangeproof_verify_impl.2:3",
+            "secp256k1_rangeproof_verify_impl.3:9"]
 VLOOPS = ["secp256k1_rangeproof_verify_impl.0:33", "secp256k1_rangeproof_verify_impl.1:33", "secp256k1_rangeproof_verify_impl.2:33",
           "secp256k1_rangeproof_verify_impl.3:129"]
 UNITS = [
@@ -9,16 +12,22 @@ UNITS = [
       timeout=300, min_obl=10, note="proved leaf contract: overflow = (be256 >= n), r = be256 mod n, frame = {r, overflow}"),
     U("C10.leaf_fe_set_b32_limit", ["C10", "C07"], "harness/C10/leaf.c", "h_leaf_fe_set_b32_limit", enforce=["secp256k1_fe_impl_set_b32_limit"],
       timeout=300, min_obl=10, note="proved leaf contract: ret = (be256 < p), r = be256 when ret, limbs in range always"),
+    U("C10.verify_gates_m4", ["C10", "C07"], "harness/C10/verify_impl.c", "h_verify_gates", defs=["MAXMAN=4"],
+      replace=["secp256k1_rangeproof_pub_expand"], assumed=VORACLES, functions=VFUNCS,
+      timeout=900, min_obl=100, unwind=34, unwindset=VLOOPS_B, bounded="mantissa <= 4 (2 rings, 8 ring members)",
+      note="bounded quick stand-in of C10.verify_gates: same harness, headers with mantissa > 4 assumed away"),
+    U("C10.verify_binding_m4", ["C10"], "harness/C10/verify_impl.c", "h_verify_binding", defs=["MAXMAN=4"],
+      replace=["secp256k1_rangeproof_pub_expand"], assumed=VORACLES, functions=VFUNCS,
+      timeout=900, min_obl=100, unwind=34, unwindset=VLOOPS_B, bounded="mantissa <= 4 (2 rings, 8 ring members)",
+      note="bounded quick stand-in of C10.verify_binding"),
     U("C10.verify_gates", ["C10", "C07"], "harness/C10/verify_impl.c", "h_verify_gates",
-      replace=["secp256k1_rangeproof_pub_expand"], assumed=VORACLES,
-      functions=["secp256k1_rangeproof_verify_impl", "secp256k1_rangeproof_getheader_impl", "secp256k1_ge_neg", "secp256k1_gej_neg", "secp256k1_gej_set_ge"],
-      timeout=2400, min_obl=100, unwind=34, unwindset=VLOOPS,
+      replace=["secp256k1_rangeproof_pub_expand"], assumed=VORACLES, functions=VFUNCS,
+      timeout=5400, min_obl=100, unwind=34, unwindset=VLOOPS, tier="thorough", mem_gb=16,
       closed_by="full unwinding to the code-enforced constants (32 rings, 128 ring members); unwinding assertions prove the bounds",
-      note="nonce == NULL; all proof byte strings of length <= 6000; pub_expand by call-site contract; scalar/field byte readers by proved leaf contracts"),
+      note="nonce == NULL; all proof byte strings of length <= 6000; pub_expand by call-site contract; oracles and byte readers by call-site stubs (assumed_rangeproof.h part B; readers proved in C10.leaf_*)"),
     U("C10.verify_binding", ["C10"], "harness/C10/verify_impl.c", "h_verify_binding",
-      replace=["secp256k1_rangeproof_pub_expand"], assumed=VORACLES,
-      functions=["secp256k1_rangeproof_verify_impl", "secp256k1_rangeproof_serialize_point"],
-      timeout=2400, min_obl=100, unwind=34, unwindset=VLOOPS,
+      replace=["secp256k1_rangeproof_pub_expand"], assumed=VORACLES, functions=VFUNCS,
+      timeout=5400, min_obl=100, unwind=34, unwindset=VLOOPS, tier="thorough", mem_gb=16,
       closed_by="full unwinding to the code-enforced constants (32 rings, 128 ring members)",
       note="hash stream contract: every position of the binding hash, every extra_commit length <= 100000"),
 ]
